@@ -111,7 +111,8 @@ def run(ctx):
     if not ctx.proof_gate(THEOREMS, ['Rename.vo', 'Build.vo']):
         return
     n = 50 if ctx.tier == 'quick' else 400
-    specs = ctx.specs(util.corpus(ctx.prop) + gen.gen_many(ctx.seed, n, CFG, 'c09_'))
+    # order books whose last order has no step in the horizon (a variable without mapping row), at any position of the asset list
+    specs = ctx.specs(util.corpus(ctx.prop) + gen.gen_many(ctx.seed, n, CFG, 'c09_') + util.orderbook_tail_specs(ctx.seed, 10 if ctx.tier == 'quick' else 60, 'c09ob_', split=False))
     base = [sp for sp in specs if not sp['id'].endswith(('+ren', '+perm'))]
     rens = [renamed(sp) for sp in base]
     perms = [permuted(sp) for sp in base]
